@@ -263,6 +263,13 @@ class Eigenpairs(SubCheck):
         bound = 20 * tol + 1e-7
         if np.any(np.diff(got) < -1e-10):
             return Outcome.fail("roots_not_ascending", f"returned energies {got.round(6).tolist()}", labels, nontrivial)
+        if exm == "rpa" and window and k > len(ev):
+            # recorded finding rpa_ignores_orbital_window seen from another side: the full-space solver returns more roots than the
+            # windowed space has (thorough run, seed 1: PM3 PF3, window (2,3), 7 roots for a 6-dimensional space)
+            Af, Bf, _ = dense(r.mol, b, None)
+            full = np.sqrt(np.clip(np.sort(np.linalg.eigvals((Af - Bf) @ (Af + Bf)).real), 0, None))
+            if all(np.abs(full - g).min() <= 20 * tol + 1e-7 for g in got):
+                return Outcome.fail("rpa_ignores_orbital_window", f"RPA with orbital_window={tuple(window)} returns {k} full-space roots {got.round(5).tolist()}; the windowed space has {len(ev)}", labels, n >= 2)
         if k > len(ev):
             return Outcome.fail("more_roots_than_the_excitation_space_has", f"{k} energies returned, the (windowed) excitation space has {len(ev)}: {got.round(5).tolist()}", labels, nontrivial)
         dmax = float(np.abs(got - ev[:k]).max())
@@ -271,7 +278,9 @@ class Eigenpairs(SubCheck):
             # batch a true excitation energy <= 0 (CIS-unstable reference) is discarded with the padding zeros of the subspace matrix
             # and 0.0 is returned in its place
             npos = int((evA <= 1e-6).sum())
-            rest_ok = k > npos and float(np.abs(got[npos:k] - ev[npos:k]).max()) <= bound and float(np.abs(got[:npos]).max()) <= 1e-12
+            # (thorough run, seed 1: with n_states = 1 the single returned value IS the padding zero -- k == npos; the first version of this
+            # predicate demanded at least one further root and let the case fall through to the generic bucket)
+            rest_ok = k >= npos and float(np.abs(got[:npos]).max()) <= 1e-12 and (k == npos or float(np.abs(got[npos:k] - ev[npos:k]).max()) <= bound)
             if rest_ok:
                 return Outcome.fail("hetero_cis_nonpositive_root_replaced_by_padding_zero", f"returned {got.round(5).tolist()} vs dense {ev[:k].round(5).tolist()}", labels, nontrivial)
         if dmax > bound and exm == "rpa" and window:
